@@ -12,6 +12,8 @@
 static inline int iora_isa(int exc, int ty) { return exc == ty; }
 
 size_t G_stoul_calls /* saturates at 2 */, G_stoul_off, G_stoul_n;
+size_t G_stoul_used;        /* number of characters std::stoul consumed (what it stores through its idx out-parameter) */
+size_t GH;                  /* arbitrary offset inside the consumed hex digit run (never assigned) */
 unsigned long G_stoul_ret;
 int G_stoul_exc;
 const char *G_stoul_base;   /* native/SEARCH builds: start of the request buffer (offsets are relative to it) */
@@ -24,9 +26,9 @@ const char *G_stoul_base;   /* native/SEARCH builds: start of the request buffer
 
 #if defined(IORA_NATIVE) || defined(IORA_SEARCH)
 /* executable body (bounded SEARCH / native differential builds) */
-static inline unsigned long iora_stoul(iora_sv s, void *idx, int base)
+static inline unsigned long iora_stoul(iora_sv s, size_t *idx, int base)
 {
-  (void)idx; (void)base;
+  (void)base;
   size_t i = 0; int neg = 0, any = 0, ovf = 0; unsigned long v = 0;
   while (i < s.n && HX_SPACE(s.p[i])) i++;
   if (i < s.n && HX_SIGN(s.p[i])) { neg = s.p[i] == (char)45; i++; }
@@ -37,6 +39,7 @@ static inline unsigned long iora_stoul(iora_sv s, void *idx, int base)
   if (!any) { iora_exc = EXC_invalid_argument; G_stoul_exc = iora_exc; return 0; }
   if (ovf) { iora_exc = EXC_out_of_range; G_stoul_exc = iora_exc; return 0; }
   G_stoul_exc = 0;
+  G_stoul_used = i; if (idx) *idx = i;
   G_stoul_ret = neg ? (unsigned long)0 - v : v;
   return G_stoul_ret;
 }
@@ -64,12 +67,27 @@ unsigned long iora_stoul_env(size_t n, char c0, char c1, size_t off, int base)
   /* ghost record */
   __CPROVER_ensures(G_stoul_calls == (__CPROVER_old(G_stoul_calls) >= 2 ? 2 : __CPROVER_old(G_stoul_calls) + 1) && G_stoul_off == off && G_stoul_n == n)
   __CPROVER_ensures(G_stoul_exc == iora_exc && (iora_exc == EXC_NONE ==> G_stoul_ret == ST_R));
-static inline unsigned long iora_stoul(iora_sv s, void *idx, int base)
+/* idx out-parameter (std::stoul(str, &used, 16)): on success *idx = number of characters consumed. For a string that starts with a hex digit (no
+ * whitespace / sign / 0x prefix) that is exactly the length of the leading hex digit run: 1 <= used <= n, the character at `used` (if any) is not a hex
+ * digit - chunk-extension text is NOT consumed - and every character below it is one (arbitrary offset GH). Otherwise only 1 <= used <= n is stated.
+ * The candidate is chosen here (the env stub has scalar parameters only); every assumed fact is true of the library's result. */
+static inline unsigned long iora_stoul(iora_sv s, size_t *idx, int base)
 {
-  IORA_ASSERT(idx == NULL, "stoul stub models idx == nullptr only");
   char c0 = s.n > 0 ? s.p[0] : (char)0;
   char c1 = s.n > 1 ? s.p[1] : (char)0;
-  return iora_stoul_env(s.n, c0, c1, (size_t)__CPROVER_POINTER_OFFSET(s.p), base);
+  size_t used = nondet_size_t();
+  IORA_ASSUME(s.n == 0 || (1 <= used && used <= s.n));
+#ifndef IORA_FIND_NO_CONTENT
+  if (s.n > 0 && HX_IS(c0) && !(c0 == (char)48 && HX_X(c1))) {
+    char cu = used < s.n ? s.p[used < s.n ? used : 0] : (char)0;
+    char ch = s.p[GH < used ? GH : 0];
+    IORA_ASSUME(used == s.n || !HX_IS(cu));
+    IORA_ASSUME(GH >= used || HX_IS(ch));
+  }
+#endif
+  unsigned long r = iora_stoul_env(s.n, c0, c1, (size_t)__CPROVER_POINTER_OFFSET(s.p), base);
+  if (iora_exc == EXC_NONE) { G_stoul_used = used; if (idx != NULL) *idx = used; }
+  return r;
 }
 #endif
 #endif
